@@ -325,8 +325,9 @@ impl Envelope {
                 // Assertions on a plain (unwrapped) signature object are covered by no
                 // signature, so they are not returned as metadata: only the signature is.
                 Some(Ok(Some(signature_object.subject())))
-            } else if signature_object.is_obscured() {
-                // An elided, encrypted or compressed signature object cannot be
+            } else if signature_object.is_subject_obscured() {
+                // An elided, encrypted or compressed signature object (or one whose
+                // signature is obscured underneath its own assertions) cannot be
                 // checked; it must not prevent other signatures from being verified.
                 None
             } else {
